@@ -496,7 +496,7 @@ REGISTRY = {
     "C13": [("C13.16", "hash256 is structure-directed: no instanceof on a child, no look-through of references outside the reference classes (= C08.20)", digest_structure_directed_rule),
             ("C13.15", "the digest context carries path bookkeeping only: every table added to is also removed from in the same method", digest_context_pairing_rule)],
     "C08": [("C08.20", "hash256 is structure-directed: no instanceof on a child, no look-through of references outside the reference classes", digest_structure_directed_rule)],
-    "C03": [  # C03.26 is armed together with the repair it found (see PENDING below)
+    "C03": [("C03.26", "no validate / parse / report method calls a method looked up on the input itself", no_method_of_the_input_rule),
             ("C03.25", "validate() methods never change a field of the context they are handed", validate_context_not_assigned_rule)],
     "C04": [("C04.15", "the visitor that discovers the buildParsers call prunes no node kind (no empty visit_* override)", visitor_not_pruned_rule)],
     "C09": [("C09.24", "the search through the `export *` targets of a module is ended only by a hit", star_search_rule)],
@@ -509,6 +509,3 @@ REGISTRY = {
     "C02": [("C02.26", "the null-branch remover answers `null` whenever it removed nothing (contract with ObjectRuntype.schema's `required`)", null_branch_contract_rule),
             ("C02.25", "schema() methods never assign a field of the printing context (= C16.13)", schema_context_not_assigned_rule)],
 }
-
-# armed by the commit that carries the repair of ArrayRuntype.parseAfterValidation (`input.map`)
-PENDING = {"C03": [("C03.26", "no validate / parse / report method calls a method looked up on the input itself", no_method_of_the_input_rule)]}
